@@ -380,3 +380,8 @@ CHECKS['C18']['text'] += (
     "knot2_refuted_preemptive_schedule (F-02b), knot2_refuted_schedule and knot2_refuted_reneging - the two NEW open findings F-18b and F-18a (a non-pre-emptive Schedule brings new servers / Node.renege ends in release_blocked_individual: the reported deadlock dissolves), both reproduced on the real engine. "
     "K: 'after' jobs continue the real simulation after simulate_until_deadlock returned (regions deadlock, deadlock_renege, deadlock_sched): no customer of the reported knot may ever move (clause 96; F-18a / F-18b are reported as KNOWN-FINDING through their triggers only), and the extracted "
     "knot_scope / knot2_b / noscope_b (dispatch 44) are evaluated on the real snapshot at the report (hypotheses) and on later real snapshots (conclusion).")
+CHECKS['C02']['text'] += (
+    " Clock2p.v (2 300 lines): the resume option of PRIORITY pre-emption at event level - event_step_clk2p_tiny / run_many_clk2p_tiny / run_many_monotone2p_tiny (named _tiny / _partial: scope `tiny` = fixed servers, no reneging, no capacities, no reroute, no class change while waiting; "
+    "any routing, discipline, server priority function, pre-emption none / resume / restart / resample) with the invariant Clk2pt = Clock2r's clauses + LinkB, the DATE link (every held customer's record names its server and node and has an end date e with server end date d <= e, so now <= d <= e and the time left "
+    "stored by resume is >= 0); event_step_linkb / run_many_linkb (the link alone, no hypothesis on draws); clk2r_not_inductive_under_resume_refuted (without the link the clock invariant is not inductive under resume: time_left = -2, clock 8 -> 6 from a non-reachable state); function level for every configuration: "
+    "preempt_tleft_partial, interrupt_service_tleft_partial, resume_end_not_past_partial. Pre-emptive Schedule resume is proved at function level only. clk2pt_b is evaluated on every real snapshot in the scope (bit clk2p).")
